@@ -89,6 +89,9 @@ def make_case(seed, shard_index, i, kind, opts=None):
         case["via_text"] = rng.choice(["agp", "tpf"])
         labels.add(f"in:via-{case['via_text']}-text")
     # (through AGP text two adjacent blocks of one name would simply be read as one scaffold)
+    if opts.get("no_join_gap") and rng.random() < opts["no_join_gap"]:
+        case["no_join_gap"] = True
+        labels.add("cfg:no-join-gap-configured")
     case["labels"] = sorted(labels)
     return case
 
@@ -130,7 +133,11 @@ def run_case(case):
     res = {"ok": False}
     try:
         pa, ia = build_inputs(case)
-        ba = BuildAssembly("out", default_gap=Gap(JOIN_GAP[1], JOIN_GAP[2]), autosome_prefix=case.get("prefix", "SUPER_"))
+        if case.get("no_join_gap"):
+            # the constructor's own default: no join gap configured (pieces are fused without a gap row)
+            ba = BuildAssembly("out", autosome_prefix=case.get("prefix", "SUPER_"))
+        else:
+            ba = BuildAssembly("out", default_gap=Gap(JOIN_GAP[1], JOIN_GAP[2]), autosome_prefix=case.get("prefix", "SUPER_"))
         res["ba"] = ba
         ba.remap_to_input_assembly(pa, ia)
         out = ba.assemblies_with_scaffolds_fused()
